@@ -57,7 +57,21 @@ fn header_owners(item: &str) -> Option<Vec<String>> {
 }
 
 fn split_text(text: &str) -> Vec<Item> {
-    split_text_raw(text).into_iter().map(|t| Item { owners: header_owners(&t), text: t }).collect()
+    let mut out = Vec::new();
+    for t in split_text_raw(text) {
+        // `from M import A, B`: one item per imported name, owned by that name alone — where a name is
+        // imported from must not depend on which other names are imported (or excluded)
+        if let Some((module, names)) = t.strip_prefix("from ").and_then(|r| r.split_once(" import ")) {
+            if !t.contains('\n') && !names.contains('(') && !module.contains(' ') {
+                for n in names.split(',').map(|n| n.trim()).filter(|n| !n.is_empty()) {
+                    out.push(Item { owners: Some(vec![n.to_string()]), text: format!("from {module} import {n}") });
+                }
+                continue;
+            }
+        }
+        out.push(Item { owners: header_owners(&t), text: t });
+    }
+    out
 }
 
 fn split_text_raw(text: &str) -> Vec<String> {
